@@ -195,6 +195,23 @@ Proof.
   destruct Hi as [Hlt Hi]. inversion Hp; subst. rewrite Hf. split; [assumption|]. apply IH; assumption.
 Qed.
 
+(* the per-timestamp denotation of a node, at the level of sample IDs *)
+Fixpoint jdenote (lb : Z) (t : jtree) (ts : Z) : list (nat * Z) :=
+  match t with
+  | JLeaf _ sers off => vec_of (select_step lb off sers ts)
+  | JJoin p l r =>
+      pure_step Z (jp_op p) (jp_b2v p) (jp_card p) (jp_bool p)
+                (op_hidx (jp_on p) (jp_ml p) (jp_card p) (jseries l) (jseries r))
+                (op_lidx (jp_on p) (jp_ml p) (jp_card p) (jseries l) (jseries r))
+                (jdenote lb l ts) (jdenote lb r ts)
+  | JMap _ f t1 => func_step Z f (jdenote lb t1 ts)
+  | JCount conv without grouping t1 =>
+      emit_ids conv (length (groups without grouping (jseries t1)))
+               (count_step without grouping (jseries t1)
+                           (repeat dacc (length (groups without grouping (jseries t1))))
+                           (sv_of ts (jdenote lb t1 ts)))
+  end.
+
 (* C01 for trees of binary operators over selectors, e.g. (a + on(x) b) * ignoring(y) group_left c:
    every node's stream is a function of the grid timestamp; its sample IDs are
    distinct and name series of the node; and at every timestamp at which the
@@ -203,23 +220,21 @@ Qed.
 Theorem jtree_matches_reference cf w :
   (0 < c_shards cf)%nat -> (0 < c_batch cf)%nat -> 0 <= c_lookback cf -> wf_window w -> noT < w_start w ->
   forall t, jok t ->
-  exists f,
-    jrun cf w t = inl (map (fun ts => (ts, f ts)) (grid w)) /\
-    forall ts, good_vec (length (jseries t)) (f ts) /\
-               forall R, jref (c_lookback cf) t ts = Some R -> Permutation (labelled Z (jseries t) (f ts)) R.
+    jrun cf w t = inl (map (fun ts => (ts, jdenote (c_lookback cf) t ts)) (grid w)) /\
+    forall ts, good_vec (length (jseries t)) (jdenote (c_lookback cf) t ts) /\
+               forall R, jref (c_lookback cf) t ts = Some R ->
+                         Permutation (labelled Z (jseries t) (jdenote (c_lookback cf) t ts)) R.
 Proof.
   intros HN HB Hlb Hw Hstart. induction t as [ls sers off|p l IHl r IHr|drops f t IH|conv without grouping t IH]; intros Hok.
-  - destruct Hok as [Hlen Hs]. exists (fun ts => vec_of (select_step (c_lookback cf) off sers ts)). split.
+  - destruct Hok as [Hlen Hs]. cbn [jdenote]. split.
     + cbn [jrun]. rewrite (run_covers_grid cf w (PSelect sers off) HN HB Hlb Hw Hs). simpl denote. rewrite map_map.
       f_equal. apply map_ext. intros ts. rewrite select_step_T. reflexivity.
     + intros ts. split.
       * simpl. rewrite Hlen. apply (vec_of_good _ _ (select_step_wf (c_lookback cf) off sers ts)).
       * intros R HR. simpl in HR. inversion HR; subst. apply Permutation_refl.
   - destruct Hok as [Hokl [Hokr [HA Hincl]]].
-    destruct (IHl Hokl) as [fl [El Pl]]. destruct (IHr Hokr) as [fr [Er Pr]].
-    exists (fun ts => pure_step Z (jp_op p) (jp_b2v p) (jp_card p) (jp_bool p)
-                        (op_hidx (jp_on p) (jp_ml p) (jp_card p) (jseries l) (jseries r))
-                        (op_lidx (jp_on p) (jp_ml p) (jp_card p) (jseries l) (jseries r)) (fl ts) (fr ts)).
+    destruct (IHl Hokl) as [El Pl]. destruct (IHr Hokr) as [Er Pr]. cbn [jdenote].
+    set (fl := jdenote (c_lookback cf) l) in *. set (fr := jdenote (c_lookback cf) r) in *.
     assert (Hgood : forall ts, good_step Z (jseries l) (jseries r) (ts, fl ts, fr ts)).
     { intros ts. destruct (Pl ts) as [[A1 A2] _]. destruct (Pr ts) as [[B1 B2] _]. unfold good_step. simpl. repeat split; assumption. }
     split.
@@ -255,8 +270,7 @@ Proof.
         pose proof (join_step_permutation Z (jp_op p) (jp_b2v p) (jp_on p) (jp_ml p) (jp_incl p) (jp_card p) (jp_bool p) (jp_drops p)
                       0 (jseries l) (jseries r) HA Hincl (ts, fl ts, fr ts) out' (Hgood ts) Href') as Pstep.
         eapply Permutation_trans; [exact Pstep|apply Permutation_sym; exact Pout].
-  - destruct (IH Hok) as [g [Eg Pg]].
-    exists (fun ts => func_step Z f (g ts)). split.
+  - destruct (IH Hok) as [Eg Pg]. cbn [jdenote]. set (g := jdenote (c_lookback cf) t) in *. split.
     + cbn [jrun]. rewrite Eg. rewrite map_map. reflexivity.
     + intros ts. destruct (Pg ts) as [[G1 G2] PG]. split.
       * split.
@@ -276,10 +290,9 @@ Proof.
           destruct (f (snd iv)) as [v|]; simpl; [|reflexivity]. f_equal. f_equal.
           apply nth_map_labels. apply Hr. left. reflexivity. }
         rewrite E. apply Permutation_flat_map. exact PG.
-  - destruct (IH Hok) as [g [Eg Pg]].
+  - destruct (IH Hok) as [Eg Pg]. cbn [jdenote]. set (g := jdenote (c_lookback cf) t) in *.
     set (sl := jseries t) in *. set (ng := length (groups without grouping sl)).
-    set (fresh := repeat dacc ng).
-    exists (fun ts => emit_ids conv ng (count_step without grouping sl fresh (sv_of ts (g ts)))). split.
+    set (fresh := repeat dacc ng). split.
     + cbn [jrun]. rewrite Eg. fold sl. rewrite count_stream_fresh by apply repeat_length. rewrite map_map. reflexivity.
     + intros ts. destruct (Pg ts) as [[G1 G2] PG].
       set (ids := map fst (g ts)).
@@ -352,4 +365,37 @@ Proof.
                  rewrite Hslot by exact Hg.
                  destruct (members_of without grouping sl gi ids) as [|i0 ms] eqn:Em; [destruct Hmem|].
                  simpl. left. reflexivity.
+Qed.
+
+(* C11 for operator trees: the stream does not depend on the shard count or the batch size *)
+Corollary jtree_independent_of_sharding_and_batching cf cf' w t :
+  (0 < c_shards cf)%nat -> (0 < c_batch cf)%nat -> (0 < c_shards cf')%nat -> (0 < c_batch cf')%nat ->
+  0 <= c_lookback cf -> c_lookback cf' = c_lookback cf -> wf_window w -> noT < w_start w -> jok t ->
+  jrun cf w t = jrun cf' w t.
+Proof.
+  intros HN HB HN' HB' Hlb Heq Hw Hs Hok.
+  destruct (jtree_matches_reference cf w HN HB Hlb Hw Hs t Hok) as [E _].
+  destruct (jtree_matches_reference cf' w HN' HB' ltac:(lia) Hw Hs t Hok) as [E' _].
+  rewrite E, E', Heq. reflexivity.
+Qed.
+
+(* C07 for operator trees: what a range query produces at a grid step is what the
+   instant query at that timestamp produces *)
+Corollary jtree_range_is_instants cf cf' w t ts :
+  (0 < c_shards cf)%nat -> (0 < c_batch cf)%nat -> (0 < c_shards cf')%nat -> (0 < c_batch cf')%nat ->
+  0 <= c_lookback cf -> c_lookback cf' = c_lookback cf -> wf_window w -> noT < w_start w -> jok t ->
+  In ts (grid w) ->
+  exists outs,
+    jrun cf w t = inl outs /\ In (ts, jdenote (c_lookback cf) t ts) outs /\
+    jrun cf' (mkW ts ts 0) t = inl [(ts, jdenote (c_lookback cf) t ts)].
+Proof.
+  intros HN HB HN' HB' Hlb Heq Hw Hs Hok Hin.
+  destruct (jtree_matches_reference cf w HN HB Hlb Hw Hs t Hok) as [E _].
+  assert (Hts : noT < ts).
+  { unfold grid in Hin. apply in_map_iff in Hin. destruct Hin as [k [<- _]]. unfold grid_at. unfold wf_window in Hw. nia. }
+  destruct (jtree_matches_reference cf' (mkW ts ts 0) HN' HB' ltac:(lia)) with (t := t) as [E' _];
+    [unfold wf_window; simpl; lia|simpl; exact Hts|exact Hok|].
+  eexists. split; [exact E|]. split.
+  - apply in_map_iff. exists ts. split; [reflexivity|assumption].
+  - rewrite E'. rewrite (grid_instant (c_batch cf') (mkW ts ts 0) HB' eq_refl). simpl. rewrite Heq. reflexivity.
 Qed.
